@@ -1626,6 +1626,12 @@ EnsureSizeAux(uint32 size, bool setNumItems, uint32 extraPreallocs, ItemType ** 
 {
    if (retOldArray) *retOldArray = NULL;  // default value, will be set non-NULL iff the old array needs deleting later
 
+   if (size < _itemCount)
+   {
+      if (setNumItems) (void) RemoveTailMulti(_itemCount-size);  // drop the surplus items first, so that what remains is guaranteed to fit into a smaller new array
+                  else size = _itemCount;                         // never (re)allocate an array too small to hold the items we have to keep
+   }
+
    if ((_queue == NULL)||(allowShrink ? (_queueSize != (size+extraPreallocs)) : (_queueSize < size)))
    {
       const uint32 sqLen = ARRAYITEMS(_smallQueue);
